@@ -207,6 +207,8 @@ def eval_norm(case):
     elif not r.startswith("//"):
         if not out_has_scheme or a["scheme"] != b["scheme"]:
             res.append(("C05/scheme", desc + ": scheme %r not preserved with strip_protocol=False" % (a["scheme"],)))
+    elif out_has_scheme:
+        res.append(("C05/scheme", desc + ": a scheme was invented for a protocol-relative input although strip_protocol=False"))
     # userinfo
     if o["strip_authentication"]:
         if b["has_userinfo"]:
